@@ -13,6 +13,7 @@ import (
 	"os"
 	"reflect"
 	"sort"
+	"strings"
 	"testing"
 	"time"
 
@@ -143,10 +144,18 @@ func vsAbstractGroup(id string, g *metadatapb.ConsumerGroup) (int, bool) {
 
 var vsNoRaw = []any{}
 
+// vsInfra remembers an error that is not a result of the store logic (etcd timeout under machine load, lost
+// connection): the run is then abandoned (exit 2), it is never turned into an observation.
+var vsInfra error
+
 func vsErr(err error) string {
 	switch {
 	case err == nil:
 		return "ok"
+	case errors.Is(err, context.DeadlineExceeded) || errors.Is(err, context.Canceled) || strings.Contains(err.Error(), "context deadline exceeded") ||
+		strings.Contains(err.Error(), "request timed out") || strings.Contains(err.Error(), "connection refused") || strings.Contains(err.Error(), "transport"):
+		vsInfra = err
+		return "infra"
 	case errors.Is(err, ErrTopicExists):
 		return "exists"
 	case errors.Is(err, ErrInvalidTopic):
@@ -366,6 +375,10 @@ func TestVerifStoreReplay(t *testing.T) {
 			line["mem"] = vsApply(ctx, mem, st, &s)
 			line["etcd"] = vsApply(ctx, es, st, &s)
 			emit(line)
+			if vsInfra != nil {
+				w.Flush()
+				t.Fatalf("infrastructure error during %s (no verdict): %v", st.A, vsInfra)
+			}
 		}
 		es.Close()
 		n++
